@@ -11,6 +11,7 @@ import (
 	"strings"
 	"testing"
 
+	"github.com/nspcc-dev/neo-go/pkg/core/block"
 	"github.com/nspcc-dev/neo-go/pkg/core/interop/storage"
 	"github.com/nspcc-dev/neo-go/pkg/core/native/nativenames"
 	"github.com/nspcc-dev/neo-go/pkg/core/transaction"
@@ -53,6 +54,8 @@ const (
 	pHalf   // n/2-of-n (even n), (n-1)/2-of-n (odd n)
 	pAlpha  // 2n/3+1-of-n
 	pMember // a single committee member
+	pF      // receiver contract that calls back into NNS from onNEP11Payment (testdata/nnsfwd)
+	pCmt2   // the committee account after a re-election (rotate); pCmt stays the account of the first committee
 	nPrincipals
 )
 
@@ -77,6 +80,8 @@ type nnsEnv struct {
 	payer   neotest.Signer
 	signers [nPrincipals]neotest.Signer // nil for contracts
 	hashes  [nPrincipals]util.Uint160
+	txCache map[string]*transaction.Transaction
+	cmtNow  int              // principal that is the committee account now (pCmt, after rotate pCmt2)
 	ncmt    int              // committee size
 	canon   [nPrincipals]int // accounts with equal script hash are one principal
 	now     uint64
@@ -106,7 +111,7 @@ func newNNSEnvN(t testing.TB, ncmt int) *nnsEnv {
 		v = vn.Env
 	}
 	e := v.E
-	n := &nnsEnv{Env: v, ncmt: ncmt}
+	n := &nnsEnv{Env: v, ncmt: ncmt, cmtNow: pCmt}
 	gas, err := e.Chain.GetNativeContractScriptHash(nativenames.Gas)
 	require.NoError(t, err)
 	n.payer = neotest.NewSingleSigner(nnsKey(100))
@@ -115,6 +120,16 @@ func newNNSEnvN(t testing.TB, ncmt int) *nnsEnv {
 	e.AddNewBlock(t, tx)
 	e.CheckHalt(t, tx.Hash())
 
+	var fund []*transaction.Transaction
+	for i := pU0; i <= pU2; i++ {
+		ftx := e.NewUnsignedTx(t, gas, "transfer", e.Validator.ScriptHash(), neotest.NewSingleSigner(nnsKey(i)).ScriptHash(), int64(9000_0000_0000), nil)
+		fund = append(fund, e.SignTx(t, ftx, 1_0000_0000, e.Validator))
+	}
+	e.AddNewBlock(t, fund...)
+	for _, ftx := range fund {
+		e.CheckHalt(t, ftx.Hash())
+	}
+
 	ctr := v.Compile("nns")
 	e.DeployContract(t, ctr, nil) // as tests/nns_test.go newNNSInvoker without TLD set
 	n.nns = ctr.Hash
@@ -122,6 +137,8 @@ func newNNSEnvN(t testing.TB, ncmt int) *nnsEnv {
 	e.DeployContract(t, co, nil)
 	cr := v.CompileHelper("caller")
 	e.DeployContract(t, cr, nil)
+	cf := v.CompileHelper("nnsfwd")
+	e.DeployContract(t, cf, nil)
 
 	for i := pU0; i <= pU2; i++ {
 		n.signers[i] = neotest.NewSingleSigner(nnsKey(i))
@@ -129,6 +146,7 @@ func newNNSEnvN(t testing.TB, ncmt int) *nnsEnv {
 	}
 	n.hashes[pC] = co.Hash
 	n.hashes[pR] = cr.Hash
+	n.hashes[pF] = cf.Hash
 	n.signers[pCmt] = e.Committee
 	n.hashes[pCmt] = e.CommitteeHash
 	n.signers[pPayer] = n.payer
@@ -159,6 +177,36 @@ func newNNSEnvN(t testing.TB, ncmt int) *nnsEnv {
 	return n
 }
 
+// rotate re-elects the one-member committee of a single-validator chain (the
+// recipe of balance_test.go rotateCommittee): a new candidate gets the NEO
+// votes, neo.GetCommittee() changes, and so does the account checkCommittee
+// asks for. The first committee's account stays principal pCmt ("former
+// committee"), the new one is pCmt2. Several blocks pass.
+func (n *nnsEnv) rotate() {
+	t, e := n.T, n.E
+	require.Equal(t, 1, n.ncmt)
+	require.Equal(t, pCmt, n.cmtNow, "one rotation per history")
+	neoInv := e.ValidatorInvoker(e.NativeHash(t, nativenames.Neo))
+	gasInv := e.ValidatorInvoker(e.NativeHash(t, nativenames.Gas))
+	candAcc, voterAcc := nnsKey(200), nnsKey(201)
+	cand, voter := neotest.NewSingleSigner(candAcc), neotest.NewSingleSigner(voterAcc)
+	gasInv.Invoke(t, true, "transfer", e.Validator.ScriptHash(), cand.ScriptHash(), int64(2000_0000_0000), nil)
+	gasInv.Invoke(t, true, "transfer", e.Validator.ScriptHash(), voter.ScriptHash(), int64(10_0000_0000), nil)
+	candPub := candAcc.PublicKey()
+	neoInv.Invoke(t, true, "transfer", e.Validator.ScriptHash(), voter.ScriptHash(), 60_000_000, nil)
+	neoInv.WithSigners(cand).Invoke(t, true, "registerCandidate", candPub.Bytes())
+	neoInv.WithSigners(voter).Invoke(t, true, "vote", voter.ScriptHash(), candPub.Bytes())
+	e.GenerateNewBlocks(t, 2)
+	newAcc := wallet.NewAccountFromPrivateKey(candAcc.PrivateKey())
+	require.NoError(t, newAcc.ConvertMultisig(1, keys.PublicKeys{candPub}))
+	newCmt := neotest.NewMultiSigner(newAcc)
+	require.NotEqual(t, n.hashes[pCmt], newCmt.ScriptHash())
+	n.signers[pCmt2] = newCmt
+	n.hashes[pCmt2] = newCmt.ScriptHash()
+	n.cmtNow = pCmt2
+	n.now = e.TopBlock(t).Timestamp
+}
+
 // canonSigners replaces aliases (e.g. 2n/3+1 = n/2+1 for n = 4) by the
 // principal they coincide with and drops accounts this chain does not have.
 func (n *nnsEnv) canonSigners(sg []int) []int {
@@ -181,7 +229,7 @@ func symAddr(i int) []byte { return bytes.Repeat([]byte{byte(0x11 * (i + 1))}, 2
 
 func (n *nnsEnv) principalOf(b []byte) int {
 	for i := 0; i < nPrincipals; i++ {
-		if (i < pHalf || n.signers[i] != nil) && bytes.Equal(b, n.hashes[i].BytesBE()) {
+		if (i < pHalf || i == pF || n.signers[i] != nil) && bytes.Equal(b, n.hashes[i].BytesBE()) {
 			return i
 		}
 	}
@@ -202,9 +250,14 @@ type nnsOp struct {
 	ID      int64  `json:"id,omitempty"`
 	Data    string `json:"data,omitempty"`
 	Price   int64  `json:"price,omitempty"`
-	Signers []int  `json:"signers"`       // principals that sign besides the payer
-	Via     int    `json:"via,omitempty"` // 0 = direct, pC / pR = through that contract
-	T       uint64 `json:"t"`             // block timestamp (ms)
+	Signers []int  `json:"signers"`           // principals that sign besides the payer
+	Via     int    `json:"via,omitempty"`     // 0 = direct, pC / pR = through that contract
+	T       uint64 `json:"t"`                 // block timestamp (ms)
+	Cmt     int    `json:"cmt,omitempty"`     // principal that is the committee account at the op's time
+	Sponsor int    `json:"sponsor,omitempty"` // 1+principal that is the transaction's Sender with witness scope None (fee only, not a witness); 0 = the payer sends
+	Entry   bool   `json:"entry,omitempty"`   // the signers (not the payer) sign with scope CalledByEntry: witnesses only when NNS is called directly
+	Mode    int    `json:"mode,omitempty"`    // transfer to pF: what its onNEP11Payment does (1 forward to Dest, 2 send back, 3 read and record, 4 refuse)
+	Dest    int    `json:"dest,omitempty"`    // Mode 1: the account the name is forwarded to
 }
 
 func (o nnsOp) String() string {
@@ -239,6 +292,15 @@ func (o nnsOp) String() string {
 	if o.Via != 0 {
 		via = fmt.Sprintf(" via=%d", o.Via)
 	}
+	if o.Mode != 0 {
+		via += fmt.Sprintf(" data=[mode %d, %d]", o.Mode, o.Dest)
+	}
+	if o.Sponsor != 0 {
+		via += fmt.Sprintf(" sender(scope None)=%d", o.Sponsor-1)
+	}
+	if o.Entry {
+		via += " scope=CalledByEntry"
+	}
 	return fmt.Sprintf("t=%d %s(%s) signers=%v%s", o.T, o.Kind, strings.Join(a, ","), o.Signers, via)
 }
 
@@ -259,6 +321,9 @@ func (n *nnsEnv) args(o nnsOp) []any {
 	case "registerTLD", "updateSOA":
 		return []any{o.Name, o.Email, o.Refresh, o.Retry, o.Expire, o.TTL}
 	case "transfer":
+		if o.Mode != 0 {
+			return []any{n.addrArg(o.Owner), o.Name, []any{o.Mode, n.addrArg(o.Dest)}}
+		}
 		return []any{n.addrArg(o.Owner), o.Name, nil}
 	case "renew":
 		return []any{o.Name, o.Years}
@@ -328,11 +393,27 @@ func (n *nnsEnv) invoke(o nnsOp) Result {
 	} else {
 		tx = e.NewUnsignedTx(n.T, n.nns, o.Kind, n.args(o)...)
 	}
-	sg := []neotest.Signer{n.payer}
-	for _, i := range o.Signers {
-		sg = append(sg, n.signers[i])
+	var sg []neotest.Signer
+	add := func(x neotest.Signer, scope transaction.WitnessScope) {
+		tx.Signers = append(tx.Signers, transaction.Signer{Account: x.ScriptHash(), Scopes: scope})
+		sg = append(sg, x)
 	}
-	e.SignTx(n.T, tx, 60_0000_0000, sg...)
+	if o.Sponsor != 0 {
+		add(n.signers[o.Sponsor-1], transaction.None) // the Sender: pays, witnesses nothing
+	}
+	add(n.payer, transaction.Global)
+	scope := transaction.Global
+	if o.Entry {
+		scope = transaction.CalledByEntry
+	}
+	for _, i := range o.Signers {
+		add(n.signers[i], scope)
+	}
+	neotest.AddNetworkFee(n.T, n.BC, tx, sg...)
+	tx.SystemFee = 60_0000_0000
+	for _, x := range sg {
+		require.NoError(n.T, x.SignTx(n.BC.GetConfig().Magic, tx))
+	}
 	b := e.NewUnsignedBlock(n.T, tx)
 	require.Greater(n.T, o.T, n.now, "timestamps must grow")
 	b.Timestamp = o.T
@@ -347,6 +428,10 @@ func (n *nnsEnv) readAt(ts uint64, o nnsOp) (stackitem.Item, bool) {
 	tx := n.E.NewUnsignedTx(n.T, n.nns, o.Kind, n.args(o)...)
 	b := n.E.NewUnsignedBlock(n.T, tx)
 	b.Timestamp = ts
+	return n.runRead(tx, b)
+}
+
+func (n *nnsEnv) runRead(tx *transaction.Transaction, b *block.Block) (stackitem.Item, bool) {
 	ic, err := n.BC.GetTestVM(trigger.Application, tx, b)
 	require.NoError(n.T, err)
 	defer ic.Finalize()
@@ -533,7 +618,9 @@ func (l nnsLit) opt(o nnsOp) string {
 // witnessed principals of an op: payer, signers, the forwarding contract.
 func (o nnsOp) witnessed() []int {
 	w := []int{pPayer}
-	w = append(w, o.Signers...)
+	if !(o.Entry && o.Via != 0) { // CalledByEntry does not reach a call made by the forwarding contract
+		w = append(w, o.Signers...)
+	}
 	if o.Via != 0 {
 		w = append(w, o.Via)
 	}
@@ -545,13 +632,66 @@ func (l nnsLit) ctx(o nnsOp) string {
 	for _, i := range o.witnessed() {
 		ws = append(ws, fmt.Sprintf("p%d", i))
 	}
-	return fmt.Sprintf("mkNC %s %s p%d [p%d]", ZLit(new(big.Int).SetUint64(o.T)), ListLit(ws), pCmt, pR)
+	rej := fmt.Sprintf("[p%d]", pR)
+	if o.Mode == 4 {
+		rej = fmt.Sprintf("[p%d; p%d]", pR, pF)
+	}
+	return fmt.Sprintf("mkNC %s %s p%d %s", ZLit(new(big.Int).SetUint64(o.T)), ListLit(ws), o.Cmt, rej)
+}
+
+// steps renders an invocation as the list of NNS calls it consists of: the
+// call itself and — for a transfer to the calling-back receiver pF that gets
+// as far as onNEP11Payment — the calls the receiver makes from the callback,
+// in a context that also witnesses the receiver. (The cases file composes
+// them atomically: any failing inner call fails the whole invocation.)
+func (l nnsLit) steps(o nnsOp, prevOwner int) string {
+	out := []string{fmt.Sprintf("(%s, %s)", l.ctx(o), l.opt(o))}
+	if o.Kind == "transfer" && o.Owner == pF && o.Mode >= 1 && o.Mode <= 3 {
+		in := o
+		in.Mode, in.Via = 0, 0
+		if !has(in.witnessed(), pF) {
+			in.Signers = append(append([]int{}, in.Signers...), pF) // rendered as a witnessed principal only
+		}
+		inner := func(x nnsOp) {
+			x.T, x.Cmt, x.Signers, x.Entry, x.Sponsor = o.T, o.Cmt, in.Signers, o.Entry, 0
+			if o.Entry && o.Via != 0 {
+				x.Entry, x.Signers = false, []int{pF}
+			} else if o.Entry {
+				// CalledByEntry signers witness the outer call only; inside the callback only pF does
+				x.Entry, x.Signers = false, []int{pF}
+			}
+			out = append(out, fmt.Sprintf("(%s, %s)", l.ctx(x), l.opt(x)))
+		}
+		switch o.Mode {
+		case 1:
+			inner(nnsOp{Kind: "transfer", Name: o.Name, Owner: o.Dest})
+		case 2:
+			inner(nnsOp{Kind: "transfer", Name: o.Name, Owner: prevOwner})
+		case 3:
+			inner(nnsOp{Kind: "ownerOf", Name: o.Name})
+			inner(nnsOp{Kind: "balanceOf", Owner: pF})
+			inner(nnsOp{Kind: "tokensOf", Owner: pF})
+		}
+	}
+	return ListLit(out)
 }
 
 // exec runs the op and the readers.
 func (n *nnsEnv) readVec(l nnsLit, ts uint64, readers []nnsOp) (vec []string, vals []nnsVal) {
+	// one block header for the whole vector, call scripts built once per reader
+	hdr := n.E.NewUnsignedBlock(n.T)
+	hdr.Timestamp = ts
+	if n.txCache == nil {
+		n.txCache = map[string]*transaction.Transaction{}
+	}
 	for _, rd := range readers {
-		it, ok := n.readAt(ts, rd)
+		key := rd.Kind + fmt.Sprint(n.args(rd))
+		tx := n.txCache[key]
+		if tx == nil {
+			tx = n.E.NewUnsignedTx(n.T, n.nns, rd.Kind, n.args(rd)...)
+			n.txCache[key] = tx
+		}
+		it, ok := n.runRead(tx, hdr)
 		v := nnsVal{}
 		if ok {
 			v = n.parse(rd.Kind, it)
@@ -654,7 +794,36 @@ var nnsNames = []nnsName{
 }
 
 // well-formed names that are not observed
-var nnsExtraValid = []string{"net", "a.net", "v.w.x.a.com"}
+var nnsExtraValid = append(append([]string{"net", "a.net", "v.w.x.a.com"}, nnsRepeatNames...), nnsLong59, nnsLong255, nnsLong254)
+
+// names of the maximum length (255) and one below, under the 2nd-level name nnsLong59
+var (
+	nnsL63     = strings.Repeat("l", 63)
+	nnsLong59  = strings.Repeat("m", 59) + ".com"                       // 63 bytes, level 2
+	nnsLong255 = nnsL63 + "." + nnsL63 + "." + nnsL63 + "." + nnsLong59 // 3*64 + 63 = 255
+	nnsLong254 = nnsL63 + "." + nnsL63 + "." + nnsL63[1:] + "." + nnsLong59
+)
+
+// names with repeated label sequences, names that contain another pool name as
+// prefix / infix / (improper) suffix: they exercise the suffix test of
+// getParentConflictingRecord and the longest-suffix search of tokenIDFromName
+var nnsRepeatNames = []string{"x.a.com.x.a.com", "x.a.com.b.com", "a.com.a.com", "b.com.a.com", "x.b.com.x.b.com",
+	"y.a.com.y.a.com", "a.com.x.a.com", "x.a.x.a.com", "com.a.com", "w.x.a.com.w.x.a.com", "xx.a.com", "x.a.comx.a.com"}
+
+// nnsIsValid: safeSplitAndCheck accepts the name (the table written to Coq).
+func nnsIsValid(name string) bool {
+	for _, nn := range nnsNames {
+		if nn.s == name {
+			return nn.valid
+		}
+	}
+	for _, x := range nnsExtraValid {
+		if x == name {
+			return true
+		}
+	}
+	return false
+}
 
 func nnsValidNames() []string {
 	var out []string
@@ -687,7 +856,10 @@ var nnsDatas = []nnsData{
 
 var nnsEmails = []string{"e@x.io", "ops@nspcc.ru", "", "a b", "\xff"}
 
-var nnsOwners = []int{pU0, pU1, pU2, pC, pCmt}
+var nnsOwners = []int{pU0, pU1, pU2, pC, pCmt, pF}
+
+// owners whose balanceOf / tokensOf are observed
+var nnsObservedOwners = []int{pU0, pU1, pU2, pC, pCmt, pR, pCmt2, pF}
 
 // ---------------------------------------------------------------------------
 // Harness-side book-keeping of "who is who" (from the results of the calls;
@@ -765,9 +937,19 @@ func (b *nnsBook) update(o nnsOp, ob nnsObs) {
 		b.root[o.Name] = true
 	case "transfer":
 		i := b.get(o.Name)
-		if i.owner != o.Owner {
-			i.formerOwner, i.formerAdmin = i.owner, i.admin
-			i.owner, i.admin = o.Owner, ownNull
+		first := i.owner
+		move := func(to int) {
+			if i.owner != to {
+				i.formerOwner, i.formerAdmin = i.owner, i.admin
+				i.owner, i.admin = to, ownNull
+			}
+		}
+		move(o.Owner)
+		if o.Owner == pF && o.Mode == 1 {
+			move(o.Dest) // forwarded from the callback
+		}
+		if o.Owner == pF && o.Mode == 2 {
+			move(first) // sent back from the callback
 		}
 	case "setAdmin":
 		i := b.get(o.Name)
@@ -782,14 +964,18 @@ func (b *nnsBook) update(o nnsOp, ob nnsObs) {
 // Generator
 
 type nnsGen struct {
-	r     *rand.Rand
-	prop  string
-	book  *nnsBook
-	mon   *nnsMon
-	now   uint64
-	ncmt  int
-	scn   bool           // inject the "expire -> parent gains deeper records -> re-register" scenario
-	queue []func() nnsOp // scripted ops, emitted before anything random
+	r      *rand.Rand
+	prop   string
+	book   *nnsBook
+	mon    *nnsMon
+	now    uint64
+	ncmt   int
+	cmtNow int            // the committee principal now
+	rotAt  int            // step at which the committee is re-elected (0 = never)
+	scn    bool           // inject the "expire -> parent gains deeper records -> re-register" scenario
+	cn     bool           // inject the CNAME-chain scenario
+	lim    bool           // inject the record-limit scenario
+	queue  []func() nnsOp // scripted ops, emitted before anything random
 }
 
 func (g *nnsGen) pick(ws ...int) int {
@@ -830,6 +1016,34 @@ func (g *nnsGen) respell(o nnsOp) nnsOp {
 	if o.Name != "" && g.r.Intn(11) == 0 {
 		v := nnsSpellings(o.Name)
 		o.Name = v[g.r.Intn(len(v))]
+	}
+	return o
+}
+
+// rescope: now and then the first key signer (usually the named owner / admin)
+// becomes the Sender with scope None — with or without a stranger co-signing
+// with a real scope — or all signers sign with CalledByEntry.
+func (g *nnsGen) rescope(o nnsOp) nnsOp {
+	if !isMutating(o.Kind) || len(o.Signers) == 0 || g.ncmt != 1 {
+		return o
+	}
+	switch x := g.r.Intn(100); {
+	case x < 9 && g.prop != "C12":
+		for k, p := range o.Signers {
+			if p <= pU2 {
+				o.Sponsor = p + 1
+				o.Signers = append(append([]int{}, o.Signers[:k]...), o.Signers[k+1:]...)
+				if g.r.Intn(2) == 0 {
+					if st := g.stranger(p); !has(o.Signers, st) {
+						o.Signers = append(o.Signers, st)
+						sort.Ints(o.Signers)
+					}
+				}
+				break
+			}
+		}
+	case x < 15 && g.prop != "C12":
+		o.Entry = true
 	}
 	return o
 }
@@ -893,7 +1107,7 @@ func signFor(ps []int) (sg []int, via int) {
 		}
 		seen[p] = true
 		switch p {
-		case pC, pR:
+		case pC, pR, pF:
 			if via == 0 {
 				via = p
 			}
@@ -926,6 +1140,9 @@ func (g *nnsGen) role(name string) []int {
 		ps = []int{i.formerAdmin}
 	case 4:
 		ps = []int{par.owner}
+		if g.r.Intn(2) == 0 && par.admin != ownNull {
+			ps = []int{par.admin}
+		}
 	case 5:
 		ps = []int{g.stranger(i.owner, i.admin)}
 	case 6:
@@ -958,6 +1175,18 @@ func (g *nnsGen) cmtSigners() []int {
 			return []int{g.r.Intn(3)}
 		}
 		return []int{pCmt}
+	}
+	if g.cmtNow != pCmt {
+		// after a re-election: the current committee, the former one, both, a stranger
+		switch g.pick(50, 30, 8, 12) {
+		case 1:
+			return []int{pCmt}
+		case 2:
+			return []int{pCmt, g.cmtNow}
+		case 3:
+			return []int{g.r.Intn(3)}
+		}
+		return []int{g.cmtNow}
 	}
 	if g.r.Intn(7) == 0 {
 		return []int{g.r.Intn(3)}
@@ -1006,6 +1235,9 @@ func (g *nnsGen) regName() string {
 // recName: a registered name or a (possibly unregistered) name below one.
 func (g *nnsGen) recName() string {
 	k := g.r.Intn(100)
+	if g.prop != "C11" && g.r.Intn(9) == 0 {
+		return nnsRepeatNames[g.r.Intn(len(nnsRepeatNames))]
+	}
 	if k < 62 {
 		return g.regName()
 	}
@@ -1123,16 +1355,153 @@ func (g *nnsGen) scenario() {
 	q(func() nnsOp { return mk(nnsOp{Kind: "isAvailable", Name: S}, soon()) })
 }
 
+// limitScenario: one (name, type) is filled up to the record limit (16) or to
+// limit-1, then: one more add, setRecord at the last id and one past it,
+// deleteRecords, an add again.
+func (g *nnsGen) limitScenario() {
+	r := g.r
+	name := []string{"a.com", "b.com", "x.a.com", "x.b.com"}[r.Intn(4)]
+	typ := []int64{tTXT, tA, tAAAA}[r.Intn(3)]
+	n := 15 + r.Intn(2)
+	val := func(i int) string {
+		switch typ {
+		case tA:
+			return fmt.Sprintf("1.2.3.%d", i+1)
+		case tAAAA:
+			return fmt.Sprintf("2001:db9::%x", i+1)
+		}
+		return fmt.Sprintf("r%d", i)
+	}
+	q := func(f func() nnsOp) { g.queue = append(g.queue, f) }
+	op := func(o nnsOp) {
+		q(func() nnsOp {
+			o.T = g.now + 1 + uint64(r.Intn(5))
+			tok := g.book.token(name, o.T)
+			o.Signers, o.Via = signFor([]int{g.book.get(tok).owner})
+			return o
+		})
+	}
+	q(func() nnsOp { // make sure the token exists and lives long
+		owner := r.Intn(3)
+		o := nnsOp{Kind: "register", Name: name, Owner: owner, Email: "e@x.io", Refresh: 1, Retry: 2, Expire: 9 * 31536000, TTL: 4, T: g.now + 1}
+		o.Signers, o.Via = signFor([]int{owner, g.book.get(nnsParent(name)).owner})
+		return o
+	})
+	for i := 0; i < n; i++ {
+		op(nnsOp{Kind: "addRecord", Name: name, Typ: typ, Data: val(i)})
+	}
+	op(nnsOp{Kind: "addRecord", Name: name, Typ: typ, Data: val(16)})
+	op(nnsOp{Kind: "addRecord", Name: name, Typ: typ, Data: val(17)})
+	op(nnsOp{Kind: "setRecord", Name: name, Typ: typ, ID: int64(n - 1), Data: val(18)})
+	op(nnsOp{Kind: "setRecord", Name: name, Typ: typ, ID: int64(n), Data: val(19)})
+	op(nnsOp{Kind: "setRecord", Name: name, Typ: typ, ID: 16, Data: val(19)})
+	q(func() nnsOp { return nnsOp{Kind: "resolve", Name: name, Typ: typ, T: g.now + 1} })
+	op(nnsOp{Kind: "deleteRecords", Name: name, Typ: typ})
+	q(func() nnsOp { return nnsOp{Kind: "getRecords", Name: name, Typ: typ, T: g.now + 1} })
+	op(nnsOp{Kind: "addRecord", Name: name, Typ: typ, Data: val(0)})
+}
+
+// cnameScenario: 2..4 names, each with own records of every type (distinct
+// values), linked by CNAMEs into a chain (sometimes closed into a cycle,
+// sometimes ending in a 255/254-byte name), then resolve for every type from
+// every link, with and without the trailing dot.
+func (g *nnsGen) cnameScenario() {
+	r := g.r
+	all := []string{"a.com", "b.com", "ab.com", "x.a.com"}
+	r.Shuffle(len(all), func(i, j int) { all[i], all[j] = all[j], all[i] })
+	names := all[:2+r.Intn(3)]
+	q := func(f func() nnsOp) { g.queue = append(g.queue, f) }
+	own := func(o nnsOp) {
+		q(func() nnsOp {
+			o.T = g.now + 1 + uint64(r.Intn(5))
+			tok := g.book.token(o.Name, o.T)
+			o.Signers, o.Via = signFor([]int{g.book.get(tok).owner})
+			return o
+		})
+	}
+	reg := func(name string) {
+		q(func() nnsOp {
+			owner := r.Intn(3)
+			o := nnsOp{Kind: "register", Name: name, Owner: owner, Email: "e@x.io", Refresh: 1, Retry: 2, Expire: 9 * 31536000, TTL: 4, T: g.now + 1}
+			ps := []int{owner}
+			if nnsLevel(name) > 2 {
+				ps = append(ps, g.book.get(nnsParent(name)).owner)
+			}
+			o.Signers, o.Via = signFor(ps)
+			return o
+		})
+	}
+	if r.Intn(3) == 0 {
+		names = append(names, []string{nnsLong255, nnsLong254}[r.Intn(2)])
+		reg(nnsLong59)
+	}
+	for i, n := range names {
+		if len(n) < 100 {
+			if n == "x.a.com" {
+				reg("a.com")
+			}
+			reg(n)
+		}
+		for j := 0; j < 1+r.Intn(2); j++ {
+			own(nnsOp{Kind: "addRecord", Name: n, Typ: tTXT, Data: fmt.Sprintf("r%d", 10*i+j)})
+		}
+		if r.Intn(2) == 0 {
+			own(nnsOp{Kind: "addRecord", Name: n, Typ: tA, Data: fmt.Sprintf("1.2.3.%d", 10*i+1)})
+		}
+		own(nnsOp{Kind: "addRecord", Name: n, Typ: tAAAA, Data: fmt.Sprintf("2001:db9::%x", 10*i+1)})
+	}
+	for i := 0; i+1 < len(names); i++ {
+		own(nnsOp{Kind: "addRecord", Name: names[i], Typ: tCNAME, Data: names[i+1]})
+	}
+	if r.Intn(3) == 0 {
+		own(nnsOp{Kind: "addRecord", Name: names[len(names)-1], Typ: tCNAME, Data: names[0]}) // cycle
+	}
+	for _, n := range names {
+		for _, ty := range []int64{tTXT, tAAAA, tA} {
+			n, ty := n, ty
+			if r.Intn(3) == 0 {
+				n += "."
+			}
+			q(func() nnsOp { return nnsOp{Kind: "resolve", Name: n, Typ: ty, T: g.now + 1} })
+		}
+	}
+}
+
 func (g *nnsGen) next(step int) nnsOp {
+	if step == 6 && g.cn {
+		g.cnameScenario()
+	}
 	if step == 6 && g.scn {
 		g.scenario()
+	}
+	if step == 6 && g.lim {
+		g.limitScenario()
 	}
 	if len(g.queue) > 0 {
 		f := g.queue[0]
 		g.queue = g.queue[1:]
 		return f()
 	}
+	if g.rotAt != 0 && step >= g.rotAt && g.cmtNow == pCmt {
+		return nnsOp{Kind: "rotate"}
+	}
 	t := g.nextTime()
+	if g.cmtNow != pCmt && g.r.Intn(3) == 0 {
+		// every committee-gated path under the current and the former committee
+		o := nnsOp{T: t}
+		switch g.r.Intn(6) {
+		case 0:
+			o.Kind, o.Price = "setPrice", int64(1000+g.r.Intn(5))
+		case 1:
+			o = nnsOp{T: t, Kind: "registerTLD", Name: []string{"net", "org", "com"}[g.r.Intn(3)], Email: "e@x.io", Refresh: 1, Retry: 2, Expire: []int64{0, 5, 3600}[g.r.Intn(3)], TTL: 4}
+		case 2, 3:
+			o.Kind, o.Name, o.Years = "renew", []string{"com", "org"}[g.r.Intn(2)], 1
+		default:
+			o = nnsOp{T: t, Kind: "updateSOA", Name: []string{"com", "org"}[g.r.Intn(2)], Email: "ops@nspcc.ru", Refresh: 5, Retry: 6, Expire: 7, TTL: int64(8 + g.r.Intn(5))}
+		}
+		o.Signers, o.Via = signFor(g.cmtSigners())
+		return o
+	}
 	mk := func(o nnsOp, ps []int) nnsOp {
 		o.T = t
 		o.Signers, o.Via = signFor(ps)
@@ -1203,13 +1572,18 @@ func (g *nnsGen) next(step int) nnsOp {
 		}
 		if nnsLevel(name) > 2 {
 			par := g.book.get(nnsParent(name))
-			switch g.pick(60, 15, 10, 15) {
+			switch g.pick(55, 15, 10, 10, 10) {
 			case 0:
 				ps = append(ps, par.owner)
 			case 1:
 				ps = append(ps, par.admin)
 			case 2:
 				ps = append(ps, par.formerOwner)
+			case 3:
+				// an enclosing name further up (the 2nd-level owner) instead of the direct parent
+				if up := nnsParent(nnsParent(name)); nnsLevel(up) >= 2 {
+					ps = append(ps, g.book.get(up).owner)
+				}
 			}
 		}
 		return mk(nnsOp{Kind: "register", Name: name, Owner: owner, Email: email(), Refresh: 1, Retry: 2, Expire: g.expire(), TTL: 4}, ps)
@@ -1226,7 +1600,16 @@ func (g *nnsGen) next(step int) nnsOp {
 		case 4, 5, 6:
 			to = g.book.get(name).owner // to self
 		}
-		return mk(nnsOp{Kind: "transfer", Name: name, Owner: to}, g.role(name))
+		op := nnsOp{Kind: "transfer", Name: name, Owner: to}
+		if g.prop != "C12" && g.r.Intn(5) == 0 {
+			// a receiver that calls back into NNS from onNEP11Payment
+			op.Owner, op.Mode = pF, 1+g.r.Intn(4)
+			op.Dest = append(append([]int{}, nnsOwners...), pR, g.book.get(name).owner)[g.r.Intn(len(nnsOwners)+2)]
+			if op.Dest < 0 {
+				op.Dest = pU0
+			}
+		}
+		return mk(op, g.role(name))
 	case 3:
 		name := g.regName()
 		if g.r.Intn(8) == 0 {
@@ -1324,7 +1707,7 @@ func nnsReaders(prop string) []nnsOp {
 	switch prop {
 	case "C10":
 		rs = append(rs, nnsOp{Kind: "totalSupply"}, nnsOp{Kind: "tokens"}, nnsOp{Kind: "roots"}, nnsOp{Kind: "getPrice"})
-		for _, p := range append(append([]int{}, nnsOwners...), pR) {
+		for _, p := range nnsObservedOwners {
 			rs = append(rs, nnsOp{Kind: "balanceOf", Owner: p}, nnsOp{Kind: "tokensOf", Owner: p})
 		}
 		rs = append(rs, nnsOp{Kind: "isAvailable", Name: "com"}, nnsOp{Kind: "isAvailable", Name: "org"})
@@ -1339,9 +1722,14 @@ func nnsReaders(prop string) []nnsOp {
 		}
 	default:
 		for _, n := range sub {
-			rs = append(rs, nnsOp{Kind: "getRecords", Name: n, Typ: tTXT},
-				nnsOp{Kind: "getRecords", Name: n, Typ: tCNAME}, nnsOp{Kind: "getAllRecords", Name: n},
-				nnsOp{Kind: "resolve", Name: n, Typ: tTXT}, nnsOp{Kind: "isAvailable", Name: n})
+			rs = append(rs, nnsOp{Kind: "getRecords", Name: n, Typ: tTXT}, nnsOp{Kind: "getAllRecords", Name: n},
+				nnsOp{Kind: "resolve", Name: n, Typ: tTXT})
+			if nnsLevel(n) <= 3 {
+				rs = append(rs, nnsOp{Kind: "isAvailable", Name: n})
+			}
+			if nnsLevel(n) == 2 || n == "x.a.com" {
+				rs = append(rs, nnsOp{Kind: "getRecords", Name: n, Typ: tCNAME}) // the CNAME records of every name are in getAllRecords
+			}
 			// the A views (same code path as TXT; the A records themselves are in
 			// getAllRecords of every name) only for three names, to keep the quick tier short
 			if n == "a.com" || n == "x.a.com" || n == "b.com" {
@@ -1357,6 +1745,50 @@ func nnsReaders(prop string) []nnsOp {
 // ---------------------------------------------------------------------------
 // Corpus: hand-written boundary histories, run first. Times are offsets from
 // the chain's time at the start of the history.
+
+// nnsCorpusRotate: the committee is re-elected in the middle of the history;
+// afterwards every committee-gated path is tried by the former committee
+// account, the current one, both, a stranger. A name owned by the former
+// committee's ACCOUNT (an ordinary 20-byte owner) stays with that account.
+func nnsCorpusRotate(prop string) []nnsHist {
+	if prop == "C12" {
+		return nil
+	}
+	const Y = int64(31536000)
+	var h []nnsOp
+	t := uint64(0)
+	add := func(o nnsOp, ps ...int) {
+		t++
+		o.T = t
+		o.Signers, o.Via = signFor(ps)
+		h = append(h, o)
+	}
+	tld := func(name string, ex int64, ps ...int) {
+		add(nnsOp{Kind: "registerTLD", Name: name, Email: "e@x.io", Refresh: 1, Retry: 2, Expire: ex, TTL: 4}, ps...)
+	}
+	add(nnsOp{Kind: "setPrice", Price: 1000}, pCmt)
+	tld("com", 100*Y, pCmt)
+	tld("org", 3600, pCmt)
+	add(nnsOp{Kind: "register", Name: "a.com", Owner: pCmt, Email: "e@x.io", Refresh: 1, Retry: 2, Expire: 3600, TTL: 4}, pCmt)
+	add(nnsOp{Kind: "setPrice", Price: 1001}, pCmt2) // no such account yet: dropped signer, refused
+	h = append(h, nnsOp{Kind: "rotate"})
+	for i, ps := range [][]int{{pCmt}, {pU0}, {}, {pCmt, pCmt2}, {pCmt2}} {
+		add(nnsOp{Kind: "setPrice", Price: int64(2000 + i)}, ps...)
+		tld("net", 0, ps...)
+		add(nnsOp{Kind: "renew", Name: "com", Years: 1}, ps...)
+		add(nnsOp{Kind: "renew", Name: "org", Years: 1}, ps...)
+		add(nnsOp{Kind: "updateSOA", Name: "org", Email: "ops@nspcc.ru", Refresh: 5, Retry: 6, Expire: 7, TTL: int64(8 + i)}, ps...)
+		add(nnsOp{Kind: "register", Name: "b.com", Owner: pU0, Email: "e@x.io", Refresh: 1, Retry: 2, Expire: 0, TTL: 4}, append([]int{pU0}, ps...)...)
+		if prop == "C11" {
+			add(nnsOp{Kind: "addRecord", Name: "a.com", Typ: tTXT, Data: fmt.Sprintf("r%d", i)}, ps...)
+			add(nnsOp{Kind: "renew", Name: "a.com", Years: 1}, ps...)
+		}
+	}
+	add(nnsOp{Kind: "transfer", Name: "a.com", Owner: pCmt2}, pCmt)
+	add(nnsOp{Kind: "transfer", Name: "a.com", Owner: pCmt}, pCmt)
+	add(nnsOp{Kind: "transfer", Name: "a.com", Owner: pCmt}, pCmt2)
+	return []nnsHist{{1, h}}
+}
 
 // nnsCorpusN: the committee-gated methods under every kind of account that
 // can be built from the committee keys, on committees of 4 (n/2+1 = 3 = 2n/3+1,
@@ -1406,7 +1838,8 @@ func nnsCorpus(prop string) []nnsHist {
 	for _, h := range nnsCorpus1(prop) {
 		out = append(out, nnsHist{1, h})
 	}
-	return append(out, nnsCorpusN(prop)...)
+	out = append(out, nnsCorpusN(prop)...)
+	return append(out, nnsCorpusRotate(prop)...)
 }
 
 func nnsCorpus1(prop string) [][]nnsOp {
@@ -1460,6 +1893,42 @@ func nnsCorpus1(prop string) [][]nnsOp {
 		reg("x.a.com", pU1, 5, pU1, pU2)
 		reg("w.x.a.com", pC, 5, pC, pU1)
 		reg("w.x.a.com", pC, 5, pC)
+		out = append(out, h)
+		// 7: receiver contracts that call back into NNS from onNEP11Payment: forward,
+		// send back, read during the callback, refuse; nested receivers
+		start()
+		reg("a.com", pU0, 3600, pU0)
+		reg("b.com", pU1, 3600, pU1)
+		fw := func(name string, mode, dest int, ps ...int) {
+			add(nnsOp{Kind: "transfer", Name: name, Owner: pF, Mode: mode, Dest: dest}, ps...)
+		}
+		fw("a.com", 3, pU0, pU0) // received, read during the callback
+		fw("a.com", 1, pU1, pF)  // F -> F (self) and on to U1
+		fw("a.com", 1, pU2, pU1) // U1 -> F -> U2: two hand-overs, two notifications
+		fw("a.com", 2, pU0, pU2) // U2 -> F -> U2
+		fw("a.com", 4, pU0, pU2) // refused: nothing moves
+		fw("a.com", 1, pR, pU2)  // forwarded to a contract that refuses: nothing moves
+		fw("a.com", 1, pC, pU2)  // forwarded to a passive contract
+		fw("a.com", 1, pF, pC)   // forwarded to itself (no data: accepted)
+		fw("b.com", 1, pU0, pU0) // not the owner: false, no callback
+		fw("b.com", 1, ownBad, pU1)
+		fw("b.com", 0, pU0, pU1) // no data: accepted silently
+		add(nnsOp{Kind: "transfer", Name: "b.com", Owner: pU1}, pF)
+		add(nnsOp{Kind: "setAdmin", Name: "b.com", Owner: pU2}, pU1, pU2)
+		fw("b.com", 2, pU0, pU1)                                                                                                  // there and back: the admin is gone
+		add(nnsOp{Kind: "register", Name: "x.a.com", Owner: pF, Email: "e@x.io", Refresh: 1, Retry: 2, Expire: 3600, TTL: 4}, pF) // minted to the receiver
+		out = append(out, h)
+		// 6: the direct parent expired: no registration below it until it is taken over
+		start()
+		reg("a.com", pU0, 2, pU0) // t=3, exp 2003
+		reg("x.a.com", pU1, 9*Y, pU0, pU1)
+		at(2002)
+		reg("y.a.com", pU0, 5, pU0)  // exp-1: still fine
+		reg("ax.a.com", pU0, 5, pU0) // exp: refused
+		reg("w.x.a.com", pU1, 3600, pU1)
+		reg("a.com", pU2, 3600, pU2) // takeover
+		reg("ax.a.com", pU0, 5, pU0)
+		reg("ax.a.com", pU0, 5, pU0, pU2)
 		out = append(out, h)
 		// 2: parent chain expiry and TLD re-registration
 		start()
@@ -1549,13 +2018,20 @@ func nnsCorpus1(prop string) [][]nnsOp {
 				add(nnsOp{Kind: "renew", Name: "a.com", Years: 1}, ps...)
 				reg("x.a.com", pU2, 3600, append([]int{pU2}, ps...)...)
 				add(nnsOp{Kind: "setAdmin", Name: "a.com", Owner: pU2}, ps...)
+				add(nnsOp{Kind: "transfer", Name: "a.com", Owner: pU2}, ps...) // (by the owner: while an admin is appointed)
 				add(nnsOp{Kind: "setAdmin", Name: "a.com", Owner: ownNull}, ps...)
-				add(nnsOp{Kind: "transfer", Name: "a.com", Owner: pU2}, ps...)
 				add(nnsOp{Kind: "setPrice", Price: 1}, ps...)
 				add(nnsOp{Kind: "registerTLD", Name: "org", Email: "e@x.io", Refresh: 1, Retry: 2, Expire: 5, TTL: 4}, ps...)
 			}
 		}
 		matrix()
+		// a.com now belongs to U2: the former owner's admin U1 and the former owner are out
+		for _, ps := range [][]int{{pU1}, {pU0}, {pU0, pU1}} {
+			rec("addRecord", "a.com", tTXT, 0, "t2", ps...)
+			add(nnsOp{Kind: "renew", Name: "a.com", Years: 1}, ps...)
+			add(nnsOp{Kind: "updateSOA", Name: "a.com", Email: "e@x.io", Refresh: 5, Retry: 6, Expire: 7, TTL: 9}, ps...)
+			reg("y.a.com", pU1, 3600, ps...)
+		}
 		out = append(out, h)
 		start()
 		reg("a.com", pU0, 3, pU0) // exp 3003
@@ -1567,6 +2043,77 @@ func nnsCorpus1(prop string) [][]nnsOp {
 		at(3003)
 		reg("a.com", pU2, 3600, pU2) // takeover
 		matrix()
+		out = append(out, h)
+		// a 2nd-level name outliving its TLD: nothing but transfer works on it any more
+		start()
+		add(nnsOp{Kind: "registerTLD", Name: "org", Email: "e@x.io", Refresh: 1, Retry: 2, Expire: 3, TTL: 4}, pCmt) // t=3, exp 3003
+		reg("a.org", pU0, 3600, pU0)
+		rec("addRecord", "a.org", tTXT, 0, "t1", pU0)
+		at(3003)
+		rec("addRecord", "a.org", tTXT, 0, "t2", pU0)
+		rec("setRecord", "a.org", tTXT, 0, "t3", pU0)
+		rec("deleteRecords", "a.org", tTXT, 0, "", pU0)
+		add(nnsOp{Kind: "updateSOA", Name: "a.org", Email: "ops@nspcc.ru", Refresh: 5, Retry: 6, Expire: 7, TTL: 8}, pU0)
+		add(nnsOp{Kind: "renew", Name: "a.org", Years: 1}, pU0)
+		add(nnsOp{Kind: "setAdmin", Name: "a.org", Owner: pU1}, pU0, pU1)
+		reg("x.a.org", pU0, 3600, pU0)
+		add(nnsOp{Kind: "transfer", Name: "a.org", Owner: pU1}, pU0)
+		out = append(out, h)
+		// the named owner / admin is only the Sender with scope None (a fee sponsor), or
+		// signs with CalledByEntry while the call goes through a contract: not a witness
+		start()
+		sp := func(o nnsOp, sponsor int, entry bool, via int, ps ...int) {
+			add(o, ps...)
+			h[len(h)-1].Sponsor, h[len(h)-1].Entry = sponsor+1, entry
+			if via != 0 {
+				h[len(h)-1].Via = via
+			}
+		}
+		regOp := func(name string, owner int) nnsOp {
+			return nnsOp{Kind: "register", Name: name, Owner: owner, Email: "e@x.io", Refresh: 1, Retry: 2, Expire: 3600, TTL: 4}
+		}
+		sp(regOp("a.com", pU0), pU0, false, 0)      // minted to the sponsor? no
+		sp(regOp("a.com", pU0), pU0, false, 0, pU2) // nor with a stranger signing
+		sp(regOp("a.com", pU0), -1, true, pC, pU0)  // CalledByEntry through a contract
+		sp(regOp("a.com", pU0), -1, true, 0, pU0)   // CalledByEntry, direct call: a witness
+		sp(nnsOp{Kind: "setAdmin", Name: "a.com", Owner: pU1}, pU0, false, 0, pU1)
+		sp(nnsOp{Kind: "setAdmin", Name: "a.com", Owner: pU1}, pU1, false, 0, pU0)
+		sp(nnsOp{Kind: "setAdmin", Name: "a.com", Owner: pU1}, -1, false, 0, pU0, pU1)
+		for _, c := range []struct {
+			sponsor int
+			entry   bool
+			via     int
+			ps      []int
+		}{{pU0, false, 0, nil}, {pU1, false, 0, []int{pU2}}, {-1, true, pC, []int{pU0}}, {-1, true, pR, []int{pU1}}, {-1, true, 0, []int{pU1}}} {
+			sp(nnsOp{Kind: "addRecord", Name: "a.com", Typ: tTXT, Data: "t1"}, c.sponsor, c.entry, c.via, c.ps...)
+			sp(nnsOp{Kind: "renew", Name: "a.com", Years: 1}, c.sponsor, c.entry, c.via, c.ps...)
+			sp(nnsOp{Kind: "updateSOA", Name: "a.com", Email: "ops@nspcc.ru", Refresh: 5, Retry: 6, Expire: 7, TTL: 8}, c.sponsor, c.entry, c.via, c.ps...)
+			sp(regOp("x.a.com", pU2), c.sponsor, c.entry, c.via, append([]int{pU2}, c.ps...)...)
+			sp(nnsOp{Kind: "transfer", Name: "a.com", Owner: pU2}, c.sponsor, c.entry, c.via, c.ps...)
+		}
+		out = append(out, h)
+		// the direct parent expired: its owner cannot plant sub-names any more
+		start()
+		reg("a.com", pU0, 2, pU0) // t=3, exp 2003
+		reg("x.a.com", pU1, 9*Y, pU0, pU1)
+		at(2003)
+		reg("y.a.com", pU0, 3600, pU0)
+		reg("w.x.a.com", pU1, 3600, pU1) // its parent x.a.com lives, a.com above it does not
+		reg("a.com", pU2, 3600, pU2)     // takeover
+		reg("y.a.com", pU0, 3600, pU0)   // the former owner
+		reg("y.a.com", pU0, 3600, pU0, pU2)
+		out = append(out, h)
+		// 4th level: the directly enclosing name decides, not the 2nd-level owner
+		start()
+		reg("a.com", pU0, 9*Y, pU0)
+		reg("x.a.com", pU1, 9*Y, pU0, pU1)
+		reg("w.x.a.com", pU2, 3600, pU0, pU2) // grandparent's owner: refused
+		reg("w.x.a.com", pU2, 3600, pU2)
+		reg("w.x.a.com", pU2, 3600, pCmt, pU2)
+		reg("w.x.a.com", pU2, 3600, pU1, pU2) // the parent's owner
+		rec("addRecord", "w.x.a.com", tTXT, 0, "t1", pU0)
+		rec("addRecord", "w.x.a.com", tTXT, 0, "t1", pU1)
+		rec("addRecord", "w.x.a.com", tTXT, 0, "t1", pU2)
 		out = append(out, h)
 		// other spellings of the name, signed by the owner: not the name
 		start()
@@ -1591,10 +2138,12 @@ func nnsCorpus1(prop string) [][]nnsOp {
 		rec("addRecord", "x.a.com", tTXT, 0, "t2", pU0)
 		for i, v := range append(nnsSpellings("a.com"), "x.a.com.", "x.a.com ") {
 			rec("addRecord", v, tTXT, 0, "t3", pU0)
-			rec("deleteRecords", v, tTXT, 0, "", pU0)
-			add(nnsOp{Kind: "getRecords", Name: v, Typ: tTXT})
 			add(nnsOp{Kind: "resolve", Name: v, Typ: tTXT})
-			if i < 2 || i >= 6 {
+			if i%2 == 0 {
+				rec("deleteRecords", v, tTXT, 0, "", pU0)
+				add(nnsOp{Kind: "getRecords", Name: v, Typ: tTXT})
+			}
+			if i < 1 || i >= 7 {
 				rec("setRecord", v, tTXT, 0, "t3", pU0)
 				add(nnsOp{Kind: "getAllRecords", Name: v})
 				add(nnsOp{Kind: "isAvailable", Name: v})
@@ -1624,6 +2173,8 @@ func nnsCorpus1(prop string) [][]nnsOp {
 		rec("addRecord", "a.com", tCNAME, 0, "ab.com", pU0)
 		rec("setRecord", "a.com", tCNAME, 0, "ab.com", pU0)
 		rec("deleteRecords", "a.com", tSOA, 0, "", pU0)
+		rec("deleteRecords", "a.com", tTXT, 0, "", pU0) // all 16, the one with id 15 included
+		rec("addRecord", "a.com", tTXT, 0, "r0", pU0)
 		out = append(out, h)
 		// 3: CNAME chains of depth 0..4, a cycle, trailing dot
 		start()
@@ -1720,6 +2271,71 @@ func nnsCorpus1(prop string) [][]nnsOp {
 		rec("deleteRecords", "w.x.a.com", tTXT, 0, "", pU1) // t = exp: token is a.com now
 		rec("addRecord", "w.x.a.com", tTXT, 0, "t2", pU1)
 		out = append(out, h)
+		// 12: resolve order — a name with a CNAME and own records of every other type,
+		// aliases with records of the same types (distinct values everywhere), chains
+		// of 1..3: own records in id order first, then those reached through the chain
+		start()
+		for i, n0 := range []string{"a.com", "b.com", "ab.com", "x.a.com"} {
+			reg(n0, pU0, 3600, pU0)
+			rec("addRecord", n0, tTXT, 0, fmt.Sprintf("r%d", 10*i), pU0)
+			rec("addRecord", n0, tTXT, 0, fmt.Sprintf("r%d", 10*i+1), pU0)
+			rec("addRecord", n0, tA, 0, fmt.Sprintf("1.2.3.%d", 10*i+1), pU0)
+			rec("addRecord", n0, tAAAA, 0, fmt.Sprintf("2001:db9::%x", 10*i+1), pU0)
+			rec("addRecord", n0, tAAAA, 0, fmt.Sprintf("2001:db9::%x", 10*i+2), pU0)
+		}
+		rec("addRecord", "a.com", tCNAME, 0, "b.com", pU0)
+		for _, ty := range []int64{tA, tTXT, tAAAA, tCNAME, tSOA} {
+			add(nnsOp{Kind: "resolve", Name: "a.com", Typ: ty})
+		}
+		rec("addRecord", "b.com", tCNAME, 0, "ab.com", pU0)
+		for _, ty := range []int64{tA, tTXT, tAAAA} {
+			add(nnsOp{Kind: "resolve", Name: "a.com.", Typ: ty})
+		}
+		rec("addRecord", "ab.com", tCNAME, 0, "x.a.com", pU0)
+		for _, ty := range []int64{tA, tTXT, tAAAA} {
+			add(nnsOp{Kind: "resolve", Name: "a.com", Typ: ty})
+			add(nnsOp{Kind: "resolve", Name: "b.com", Typ: ty})
+		}
+		out = append(out, h)
+		// 13: names of 255 and 254 bytes in every read path, with and without the
+		// trailing dot, directly and as CNAME targets
+		start()
+		reg("a.com", pU0, 3600, pU0)
+		reg(nnsLong59, pU0, 3600, pU0)
+		for i, n0 := range []string{nnsLong255, nnsLong254} {
+			rec("addRecord", n0, tTXT, 0, fmt.Sprintf("r%d", i), pU0)
+			rec("addRecord", n0, tA, 0, "1.2.3.4", pU0)
+			for _, v := range []string{n0, n0 + "."} {
+				add(nnsOp{Kind: "getRecords", Name: v, Typ: tTXT})
+				add(nnsOp{Kind: "getAllRecords", Name: v})
+				add(nnsOp{Kind: "resolve", Name: v, Typ: tTXT})
+			}
+			add(nnsOp{Kind: "resolve", Name: n0 + "..", Typ: tTXT})
+			add(nnsOp{Kind: "isAvailable", Name: n0})
+			rec("setRecord", n0, tTXT, 0, "t1", pU0)
+			rec("deleteRecords", "a.com", tCNAME, 0, "", pU0)
+			rec("addRecord", "a.com", tCNAME, 0, n0, pU0)
+			add(nnsOp{Kind: "resolve", Name: "a.com", Typ: tTXT})
+			add(nnsOp{Kind: "resolve", Name: "a.com.", Typ: tA})
+		}
+		rec("addRecord", "a.com", tCNAME, 0, nnsLong255+"x", pU0) // 256 bytes
+		reg(nnsLong255, pU1, 3600, pU0, pU1)                      // blocked by nothing but its parents
+		out = append(out, h)
+		// 11: conflict test on a record name that contains the registered name more than
+		// once (proper suffix = LAST occurrence), and on one that merely contains it
+		start()
+		reg("a.com", pU0, 9*Y, pU0)
+		reg("b.com", pU0, 9*Y, pU0)
+		rec("addRecord", "x.a.com.b.com", tTXT, 0, "t1", pU0)   // under b.com: contains x.a.com, no suffix
+		reg("x.a.com", pU1, 2, pU0, pU1)                        // fine; t=6, exp 2006
+		rec("addRecord", "x.a.com.x.a.com", tTXT, 0, "t2", pU1) // under x.a.com while it lives
+		at(2006)
+		rec("addRecord", "x.a.com.x.a.com", tTXT, 0, "t3", pU0) // under a.com now
+		add(nnsOp{Kind: "isAvailable", Name: "x.a.com"})
+		reg("x.a.com", pU2, 3600, pU0, pU2) // blocked
+		rec("deleteRecords", "x.a.com.x.a.com", tTXT, 0, "", pU0)
+		reg("x.a.com", pU2, 3600, pU0, pU2)
+		out = append(out, h)
 		// 9: level 3 — x.a.com expires, a.com (now the token of everything below)
 		// gains a record of w.x.a.com: isAvailable(x.a.com) is false and the
 		// re-registration (takeover) is refused until the record is gone
@@ -1813,6 +2429,43 @@ func (m *nnsMon) conflict(name string) string {
 	return ""
 }
 
+// chainLivePre: the name and all enclosing names were live in the book copy
+// taken before the op.
+func (m *nnsMon) chainLivePre(pre map[string]nnsInfo, name string, now uint64) bool {
+	for n := name; n != ""; n = nnsParent(n) {
+		i, ok := pre[n]
+		if !ok || !i.registered || now >= i.exp {
+			return false
+		}
+	}
+	return true
+}
+
+// checkCallbackReads: what the receiver saw from inside onNEP11Payment (mode 3)
+// — it already is the owner, the name is in its token index once, its balance
+// is what balanceOf says afterwards.
+func (m *nnsMon) checkCallbackReads(n *nnsEnv, o nnsOp, ob *nnsObs) {
+	tx := n.E.NewUnsignedTx(n.T, n.hashes[pF], "last")
+	b := n.E.NewUnsignedBlock(n.T, tx)
+	ic, err := n.BC.GetTestVM(trigger.Application, tx, b)
+	require.NoError(n.T, err)
+	defer ic.Finalize()
+	ic.VM.LoadWithFlags(tx.Script, callflag.All)
+	require.NoError(n.T, ic.VM.Run())
+	arr := ic.VM.Estack().Pop().Item().Value().([]stackitem.Item)
+	owner, bal, cnt := n.itemAddr(arr[0]), ItemInt(arr[1]).Int64(), ItemInt(arr[2]).Int64()
+	if owner != pF || cnt != 1 {
+		m.hist = append(m.hist, o.String())
+		m.violate("C10: inside onNEP11Payment of %s the receiver saw ownerOf=%d and %d index entries of the name (expected itself, 1)", o.String(), owner, cnt)
+		m.hist = m.hist[:len(m.hist)-1]
+	}
+	if v, ok := m.rd(ob, "balanceOf", "", int64(pF)); ok && v.ok && v.i.Int64() != bal {
+		m.hist = append(m.hist, o.String())
+		m.violate("C10: inside onNEP11Payment of %s the receiver saw balance %d, afterwards balanceOf says %v", o.String(), bal, v.i)
+		m.hist = m.hist[:len(m.hist)-1]
+	}
+}
+
 func (m *nnsMon) violate(f string, a ...any) { m.st.AddViolation(fmt.Sprintf(f, a...), m.hist) }
 
 func (m *nnsMon) rd(ob *nnsObs, kind, name string, x int64) (nnsVal, bool) {
@@ -1868,13 +2521,13 @@ func (m *nnsMon) authorised(o nnsOp) bool {
 	adminOf := func(tok string) bool {
 		i := b.get(tok)
 		if i.owner == ownNull {
-			return has(w, pCmt)
+			return has(w, o.Cmt)
 		}
 		return has(w, i.owner) || (i.admin != ownNull && has(w, i.admin))
 	}
 	switch o.Kind {
 	case "registerTLD", "setPrice":
-		return has(w, pCmt)
+		return has(w, o.Cmt)
 	case "addRecord", "setRecord", "deleteRecords":
 		return adminOf(b.token(o.Name, o.T))
 	case "updateSOA", "renew":
@@ -1948,6 +2601,9 @@ func (m *nnsMon) step(o nnsOp, ob *nnsObs) {
 	wantT := 0
 	if effect && (o.Kind == "register" || o.Kind == "transfer") {
 		wantT = 1
+		if o.Kind == "transfer" && o.Owner == pF && (o.Mode == 1 || o.Mode == 2) {
+			wantT = 2 // the hand-over to the receiver and the one it makes from the callback
+		}
 	}
 	if nTransfer != wantT {
 		m.violate("%s: %d Transfer notifications, expected %d", o.String(), nTransfer, wantT)
@@ -2014,6 +2670,48 @@ func (m *nnsMon) step(o nnsOp, ob *nnsObs) {
 		}
 	}
 
+	// ---- expired names (or names under an expired chain) are out of reach, in every family:
+	// no effect of a method on them (transfer looks at the token itself only), and
+	// ownerOf / properties answer exactly for live chains
+	if effect {
+		nm := strings.TrimSuffix(o.Name, ".")
+		switch o.Kind {
+		case "renew", "setAdmin", "updateSOA":
+			if !m.chainLivePre(pre, o.Name, now) {
+				m.violate("%s took effect on a name whose chain is not live", o.String())
+			}
+		case "register":
+			if !m.chainLivePre(pre, nnsParent(o.Name), now) {
+				m.violate("%s took effect under a parent chain that is not live", o.String())
+			}
+		case "transfer":
+			if p0, ok := pre[o.Name]; !ok || !p0.registered || now >= p0.exp {
+				m.violate("%s took effect on an expired/unregistered name", o.String())
+			}
+		case "addRecord", "setRecord", "deleteRecords":
+			if !m.chainLivePre(pre, tokPre, now) || nnsLevel(tokPre) < 2 {
+				m.violate("%s took effect although the token %s of %s is not live", o.String(), tokPre, nm)
+			}
+		}
+	}
+	for i, r := range m.readers {
+		if (r.Kind == "ownerOf" || r.Kind == "properties") && nnsLevel(r.Name) >= 2 && ob.vals[i].ok != b.chainLive(r.Name, now) {
+			m.violate("%s(%s) readable=%v but live chain=%v", r.Kind, r.Name, ob.vals[i].ok, b.chainLive(r.Name, now))
+		}
+		// who is who, as the spec's book-keeping has it (every family that reads them)
+		if v := ob.vals[i]; v.ok && r.Kind == "properties" {
+			if v.padmin != b.get(r.Name).admin {
+				m.violate("properties(%s).admin=%d, spec %d", r.Name, v.padmin, b.get(r.Name).admin)
+			}
+			if v.i.Uint64() != b.get(r.Name).exp {
+				m.violate("properties(%s).expiration=%v, spec %d", r.Name, v.i, b.get(r.Name).exp)
+			}
+		}
+		if v := ob.vals[i]; v.ok && r.Kind == "ownerOf" && v.addr != b.get(r.Name).owner {
+			m.violate("ownerOf(%s)=%d, spec %d", r.Name, v.addr, b.get(r.Name).owner)
+		}
+	}
+
 	// ---- C10: accounting
 	if m.prop == "C10" {
 		ts, _ := m.rd(ob, "totalSupply", "", 0)
@@ -2028,7 +2726,7 @@ func (m *nnsMon) step(o nnsOp, ob *nnsObs) {
 			m.violate("C10: totalSupply %v != %d non-TLD names registered", ts.i, nonTLD)
 		}
 		sum := int64(0)
-		for _, p := range append(append([]int{}, nnsOwners...), pR) {
+		for _, p := range nnsObservedOwners {
 			bo, _ := m.rd(ob, "balanceOf", "", int64(p))
 			to, _ := m.rd(ob, "tokensOf", "", int64(p))
 			sum += bo.i.Int64()
@@ -2054,20 +2752,10 @@ func (m *nnsMon) step(o nnsOp, ob *nnsObs) {
 				continue
 			}
 			ow, _ := m.rd(ob, "ownerOf", nm, 0)
-			pr, _ := m.rd(ob, "properties", nm, 0)
 			av, _ := m.rd(ob, "isAvailable", nm, 0)
 			live := b.chainLive(nm, now)
-			if ow.ok != live || pr.ok != live {
-				m.violate("C10: ownerOf/properties(%s) readable=%v/%v but live chain=%v", nm, ow.ok, pr.ok, live)
-			}
 			if ow.ok && ow.addr != m.owner[nm] {
 				m.violate("C10: ownerOf(%s)=%d, Transfer replay says %d", nm, ow.addr, m.owner[nm])
-			}
-			if pr.ok && pr.i.Uint64() != b.get(nm).exp {
-				m.violate("C10: properties(%s).expiration=%v, spec %d", nm, pr.i, b.get(nm).exp)
-			}
-			if pr.ok && pr.padmin != b.get(nm).admin {
-				m.violate("C10: properties(%s).admin=%d, spec %d", nm, pr.padmin, b.get(nm).admin)
 			}
 			if b.chainLive(nnsParent(nm), now) && b.root[nm[strings.LastIndexByte(nm, '.')+1:]] {
 				if live && (!av.ok || av.b) {
@@ -2116,14 +2804,9 @@ func (m *nnsMon) step(o nnsOp, ob *nnsObs) {
 				return nil, false
 			}
 			name = strings.TrimSuffix(name, ".")
-			valid := false
-			for _, nn := range nnsNames {
-				if nn.s == name && nn.valid {
-					valid = true
-				}
-			}
+			valid := nnsIsValid(name)
 			tok := b.token(name, now)
-			if !valid || nnsLevel(tok) < 2 || !b.chainLive(tok, now) {
+			if !valid || !b.chainLive(tok, now) {
 				return nil, false
 			}
 			res := append([]string{}, m.recs[rkeyOf(tok, name, typ)]...)
@@ -2134,11 +2817,20 @@ func (m *nnsMon) step(o nnsOp, ob *nnsObs) {
 			r2, ok := follow(cn[len(cn)-1], typ, budget-1)
 			return append(res, r2...), ok
 		}
-		for i, r := range m.readers {
-			v := ob.vals[i]
-			nm := strings.TrimSuffix(r.Name, ".")
+		judge := func(r nnsOp, v nnsVal) {
+			nm := r.Name
 			tok := b.token(nm, now)
 			live := nnsLevel(tok) >= 2 && b.chainLive(tok, now)
+			switch r.Kind {
+			case "getRecords", "getAllRecords":
+				// only resolve strips a trailing dot; type and id are bytes (-128..255)
+				if !nnsIsValid(nm) || nnsLevel(nm) < 2 || r.Kind == "getRecords" && (r.Typ < -128 || r.Typ > 255) {
+					if v.ok {
+						m.violate("C12: %s(%q,%d) answers for a malformed name / type", r.Kind, r.Name, r.Typ)
+					}
+					return
+				}
+			}
 			switch r.Kind {
 			case "getRecords":
 				if !live && v.ok {
@@ -2173,6 +2865,9 @@ func (m *nnsMon) step(o nnsOp, ob *nnsObs) {
 				}
 			case "resolve":
 				want, ok := follow(r.Name, r.Typ, 2)
+				if !strings.Contains(r.Name, ".") {
+					want, ok = nil, false // one fragment: "token not found" ("com." has two and resolves the TLD)
+				}
 				if ok != v.ok {
 					m.violate("C12: resolve(%s,%d) halts=%v, spec %v", r.Name, r.Typ, v.ok, ok)
 				} else if ok && r.Typ != tSOA && !sameStrs(want, v.strs) {
@@ -2229,6 +2924,16 @@ func (m *nnsMon) step(o nnsOp, ob *nnsObs) {
 				}
 			}
 		}
+		for i, r := range m.readers {
+			judge(r, ob.vals[i])
+		}
+		// the op itself, when it is one of the read paths (any spelling, any type)
+		switch o.Kind {
+		case "getRecords", "getAllRecords", "resolve":
+			v := ob.rv
+			v.ok = ob.halt
+			judge(o, v)
+		}
 	}
 }
 
@@ -2238,6 +2943,20 @@ func nnsDataValid(typ int64, s string) bool {
 	for _, d := range nnsDatas {
 		if d.typ == typ && d.s == s {
 			return d.valid
+		}
+	}
+	if typ == tCNAME {
+		return nnsIsValid(s)
+	}
+	var k int
+	if typ == tA && len(s) >= 7 {
+		if _, err := fmt.Sscanf(s, "1.2.3.%d", &k); err == nil && s == fmt.Sprintf("1.2.3.%d", k) && 1 <= k && k <= 254 {
+			return true // generated global-unicast addresses 1.2.3.k
+		}
+	}
+	if typ == tAAAA {
+		if _, err := fmt.Sscanf(s, "2001:db9::%x", &k); err == nil && s == fmt.Sprintf("2001:db9::%x", k) && 1 <= k && k <= 0xffff {
+			return true
 		}
 	}
 	return typ == tTXT && len(s) <= 255
@@ -2254,7 +2973,7 @@ func runNNSFamily(t *testing.T, prop string) {
 	nh, maxOps := 48, 34
 	switch prop {
 	case "C12":
-		nh, maxOps = 18, 32
+		nh, maxOps = 9, 32
 	}
 	if Tier() == "thorough" {
 		nh, maxOps = nh*10, 60
@@ -2265,13 +2984,17 @@ func runNNSFamily(t *testing.T, prop string) {
 	distinct := map[string]bool{}
 	reasons := map[string]int{}
 	cmtSizes := map[int]int{}
+	rotated := 0
 	deep := 0
 	run := func(hidx int, ncmt int, corpus []nnsOp) {
 		n := newNNSEnvN(t, ncmt)
 		lit.n = n
 		base := n.now
 		cmtSizes[n.ncmt]++
-		g := &nnsGen{r: Rng(int64(hidx) + 7777), prop: prop, book: nil, now: base, ncmt: n.ncmt}
+		g := &nnsGen{r: Rng(int64(hidx) + 7777), prop: prop, book: nil, now: base, ncmt: n.ncmt, cmtNow: pCmt}
+		if corpus == nil && n.ncmt == 1 && (prop == "C11" && hidx%6 == 0 || prop == "C10" && hidx%10 == 0) {
+			g.rotAt = 6 + g.r.Intn(8)
+		}
 		mon := newNNSMon(prop, st, readers)
 		g.book = mon.book
 		g.mon = mon
@@ -2282,6 +3005,18 @@ func runNNSFamily(t *testing.T, prop string) {
 				g.scn = true
 				if nops < 20 {
 					nops = 20
+				}
+			}
+			if prop == "C12" && hidx%3 == 2 {
+				g.cn = true
+				if nops < 40 {
+					nops = 40
+				}
+			}
+			if prop == "C12" && hidx%3 == 1 {
+				g.lim = true
+				if nops < 34 {
+					nops = 34
 				}
 			}
 		}
@@ -2299,9 +3034,24 @@ func runNNSFamily(t *testing.T, prop string) {
 				o = g.next(i)
 				if i > 5 {
 					o = g.respell(o)
+					o = g.rescope(o)
 				}
 			}
+			if o.Kind == "rotate" {
+				before := n.now
+				n.rotate()
+				base += n.now - before
+				g.cmtNow = n.cmtNow
+				mon.hist = append(mon.hist, "rotate (committee re-election)")
+				st.OpHistogram["rotate"]++
+				rotated++
+				continue
+			}
 			o.Signers = n.canonSigners(o.Signers)
+			o.Cmt = n.cmtNow
+			if o.Sponsor != 0 && (o.Sponsor-1 > pU2 || has(o.Signers, o.Sponsor-1)) {
+				o.Sponsor = 0 // only funded key accounts that do not sign otherwise
+			}
 			if o.Kind == "addRecord" || o.Kind == "setRecord" {
 				k := fmt.Sprintf("%d|%s", o.Typ, o.Data)
 				if !usedData[k] {
@@ -2311,7 +3061,11 @@ func runNNSFamily(t *testing.T, prop string) {
 					}
 				}
 			}
+			prevOwner := mon.book.get(o.Name).owner
 			ob := n.exec(lit, o, readers)
+			if o.Kind == "transfer" && o.Mode == 3 && ob.halt && ob.retOK {
+				mon.checkCallbackReads(n, o, &ob)
+			}
 			mon.step(o, &ob)
 			if os.Getenv("VERIF_NNS_TRACE") != "" && hidx < 0 {
 				ga := ""
@@ -2320,7 +3074,7 @@ func runNNSFamily(t *testing.T, prop string) {
 				}
 				fmt.Printf("[%d] %s -> halt=%v ret=%s %s%s\n", hidx, o.String(), ob.halt, ob.ret, ob.fault, ga)
 			}
-			steps = append(steps, fmt.Sprintf("((%s, %s), %s)", lit.ctx(o), lit.opt(o), lit.obs(ob, prevVec)))
+			steps = append(steps, fmt.Sprintf("(%s, %s)", lit.steps(o, prevOwner), lit.obs(ob, prevVec)))
 			prevVec = ob.vec
 			st.Evaluations++
 			st.OpHistogram[o.Kind]++
@@ -2380,6 +3134,7 @@ func runNNSFamily(t *testing.T, prop string) {
 		run(h, ncmt, nil)
 	}
 	st.Extra["histories_by_committee_size"] = cmtSizes
+	st.Extra["histories_with_committee_reelection"] = rotated
 	st.DistinctNontrivial = len(distinct)
 	st.Extra["readers_per_step"] = len(readers)
 	st.Extra["fault_reasons"] = reasons
@@ -2399,6 +3154,10 @@ func runNNSFamily(t *testing.T, prop string) {
 	for _, r := range readers {
 		rds = append(rds, lit.opt(r))
 	}
+	var poolRefs []string
+	for i := range pool.order {
+		poolRefs = append(poolRefs, fmt.Sprintf("n%d", i))
+	}
 	footer := "Definition valid_names : list bytes := " + ListLit(vn) + ".\n" +
 		"Definition valid_datas : list (Z * bytes) := " + ListLit(dataTable) + ".\n" +
 		"Definition vname (b : bytes) : bool := existsb (bytes_eqb b) valid_names.\n" +
@@ -2406,16 +3165,36 @@ func runNNSFamily(t *testing.T, prop string) {
 		"(* std.StringSplit accepts ASCII strings (<= 1024 bytes); the only non-ASCII byte the generator uses is 0xFF, never valid UTF-8 *)\n" +
 		"Definition sok (b : bytes) : bool := forallb (fun c => N.ltb c 128) b.\n" +
 		"Definition readers : list nop := " + ListLit(rds) + ".\n" +
-		"Definition check_case (c : list ((nctx * nop) * val)) :=\n  run_case (nstep_obs (fun x => x) vname vdata sok readers) (ninit, []) 0 c.\n" +
+		"(* RIPEMD-160 is instantiated by an injective function with short values (long pool strings -> [1; index],\n   anything else -> 0 :: itself): the model only needs injectivity, short keys keep the maps fast *)\n" +
+		"Definition pool_strings : list bytes := " + ListLit(poolRefs) + ".\n" +
+		"Fixpoint index_of (b : bytes) (l : list bytes) (i : N) : option N :=\n  match l with [] => None | x :: l' => if bytes_eqb x b then Some i else index_of b l' (N.succ i) end.\n" +
+		"Definition chash (b : bytes) : bytes :=\n  if (length b <=? 24)%nat then 0%N :: b else match index_of b pool_strings 0%N with Some i => [1%N; i] | None => 0%N :: b end.\n" +
+		"(* One invocation = the NNS call and the calls a receiving contract makes from its onNEP11Payment callback\n   (only after a transfer that answered true); every inner call must halt, an inner transfer must answer true\n   (the receiver panics otherwise); a fault anywhere rolls the whole invocation back. *)\n" +
+		"Definition is_transfer (o : nop) : bool := match o with Transfer _ _ => true | _ => false end.\n" +
+		"Fixpoint cinner (s : nstate) (ns : list nnotif) (l : list (nctx * nop)) : outcome (nstate * list nnotif) :=\n" +
+		"  match l with\n  | [] => Halt (s, ns)\n  | (c, o) :: l' =>\n      match nexec chash vname vdata sok c s o with\n      | Fault => Fault\n" +
+		"      | Halt (s1, r, ns1) => if is_transfer o && negb (val_eqb r (VBool true)) then Fault else cinner s1 (ns ++ ns1) l'\n      end\n  end.\n" +
+		"Definition cexec (s : nstate) (l : list (nctx * nop)) : outcome (nstate * val * list nnotif) :=\n" +
+		"  match l with\n  | [] => Fault\n  | (c, o) :: l' =>\n      match nexec chash vname vdata sok c s o with\n      | Fault => Fault\n" +
+		"      | Halt (s1, r, ns1) =>\n          if val_eqb r (VBool true) then match cinner s1 ns1 l' with Halt (s2, ns2) => Halt (s2, r, ns2) | Fault => Fault end\n          else Halt (s1, r, ns1)\n      end\n  end.\n" +
+		"Definition cstep_obs (sp : nstate * list val) (l : list (nctx * nop)) : (nstate * list val) * val :=\n" +
+		"  let c0 := match l with (c, _) :: _ => c | [] => mkNC 0 [] [] [] end in\n" +
+		"  let '(s', r, ns) := match cexec (fst sp) l with Halt x => x | Fault => (fst sp, VFault, []) end in\n" +
+		"  let v := obs_vector chash vname vdata sok readers c0 s' in\n" +
+		"  ((s', v), VList [r; VList (map notif_val ns); VList (diff_vals 0 (snd sp) v)]).\n" +
+		"Definition check_case (c : list (list (nctx * nop) * val)) :=\n  run_case cstep_obs (ninit, []) 0 c.\n" +
 		"Definition M := Eval vm_compute in failures_from 0 (map check_case cases).\nPrint M.\n"
 	// several files (the driver evaluates them in parallel); each carries the whole pool
-	const chunk = 8
-	for k := 0; k*chunk < len(cases); k++ {
-		hi := (k + 1) * chunk
-		if hi > len(cases) {
-			hi = len(cases)
+	// (long generated histories and short corpus ones are dealt out round-robin so
+	// that the files take about equally long)
+	const chunk = 4
+	nf := (len(cases) + chunk - 1) / chunk
+	for k := 0; k < nf; k++ {
+		var part []string
+		for i := k; i < len(cases); i += nf {
+			part = append(part, fmt.Sprintf("(* history %d *) %s", i, cases[i]))
 		}
-		cf := &CasesFile{Pool: pool, Header: hd.String(), Cases: cases[k*chunk : hi], Footer: footer}
+		cf := &CasesFile{Pool: pool, Header: hd.String(), Cases: part, Footer: footer}
 		name := fmt.Sprintf("/cases_%s_%d.v", prop, k)
 		if k == 0 {
 			name = "/cases_" + prop + ".v"
